@@ -354,6 +354,13 @@ class Translit:
                     out.append("%s = %s" % (pm.group(1), "None" if scalar else "%s()" % tyname)); continue
                 raise ExtractionError("%s: unsupported declarator '%s'" % (self.name, piece))
             return out
+        parts = split_top(st)
+        if len(parts) > 1 and all(re.match(r"^[\w.\[\]]+\s*(\+=|-=|\*=|/=|=)(?!=)", p_) for p_ in parts):
+            self.hit("comma-operator->statements", st)
+            out = []
+            for p_ in parts:
+                out += self.simple(p_)
+            return out
         m = re.match(r"^([\w.\[\]()>-]+?)\s*(\+=|-=|\*=|/=|=)\s*(.+)$", st)
         if m and not st.startswith("("):
             lhs = self.expr(m.group(1))
